@@ -126,6 +126,21 @@ func vkEmbedOne(pn *net.IPNet, pbits vkBits, n int, v4 [4]byte) string {
 	if ia := inAddrArpa(back2); ia != vkRefInAddrArpa(v4) {
 		return fmt.Sprintf("inAddrArpa(%s) = %s, want %s", back2, ia, vkRefInAddrArpa(v4))
 	}
+	// NOT an embedding: the same address with a non-zero reserved octet (bits 64-71; outside the prefix for every
+	// length but /96, where the configuration already demands a zero octet). It must not map back: otherwise two
+	// distinct ip6.arpa names translate to one IPv4 address and the embedding is not reversible.
+	if n <= 64 {
+		for _, u := range []byte{0x01, 0x80, 0xff} {
+			bad := append(net.IP(nil), wantIP...)
+			bad[8] = u
+			if v, ok := extractIPv4(pn, bad); ok {
+				return fmt.Sprintf("extractIPv4(%s, %s) = (%v, true) although the reserved octet (bits 64-71) is %#02x: not an RFC 6052 embedding", pn, bad, v, u)
+			}
+			if _, rok := vkRefExtract(pbits, n, vkBitsOf(bad)); rok {
+				return fmt.Sprintf("harness: the reference extraction accepts %s under %s", bad, pn)
+			}
+		}
+	}
 	return ""
 }
 
